@@ -27,8 +27,7 @@ def run(tier):
         ss = [n for i, n in enumerate(sizes) if (i + h) % (nh // 2) == 0 or rng.random() < 0.05]
         sh = [s for i, s in enumerate(shapes) if (i + h) % (nh // 2) == 0 or rng.random() < 0.05]
         jobs.append((ss, sh, rng.randrange(1 << 30)))
-    with mp.get_context("fork").Pool(common.NCPU) as pool:
-        traces = pool.map(drv_indexmaps_history, jobs)
+    traces = common.pmap(drv_indexmaps_history, jobs)
     accepted, failures, results = tracecheck.validate("TraceIndexMaps", traces, {"C11"})
     for r in results:
         rep.add_tlc(r)
